@@ -47,7 +47,27 @@ def one(pid, mn, props=None, skip_tests=bool(os.environ.get("SEED_SKIP_TESTS")))
         sh("git -C %s checkout -- ." % wt)
         if isc:
             rebuild(wt)
+    # keep the test-suite confirmation of an earlier full run when this run skipped it
+    vdir = "/verif/seeded/%s/%s" % (pid, mn)
+    os.makedirs(vdir, exist_ok=True)
+    old = {}
+    if os.path.exists(vdir + "/result.json"):
+        old = json.load(open(vdir + "/result.json"))
+    for k in ("tests", "tests_failed"):
+        if k not in out and k in old:
+            out[k] = old[k]
+    for p, c in old.get("checks", {}).items():
+        out["checks"].setdefault(p, c)
     json.dump(out, open(sd + "/result.json", "w"), indent=1)
+    for f in ("patch.diff", "demo.py", "meta.json"):
+        shutil.copy(sd + "/" + f, vdir + "/" + f)
+    json.dump(out, open(vdir + "/result.json", "w"), indent=1)
+    meta = json.load(open(vdir + "/meta.json"))
+    meta["confirmed"] = {"demo_exit_unchanged_tree": out.get("demo_clean_rc"), "demo_exit_changed_tree": out.get("demo_mutated_rc"),
+                         "test_suite_on_changed_tree": out.get("tests")}
+    meta["detected_by"] = sorted(p for p, c in out["checks"].items() if c["rc"] == 1 and c["violations"])
+    meta["not_detected_by"] = sorted(p for p, c in out["checks"].items() if not (c["rc"] == 1 and c["violations"]))
+    json.dump(meta, open(vdir + "/meta.json", "w"), indent=1)
     print(pid, mn, "demo", out.get("demo_clean_rc"), out.get("demo_mutated_rc"), "tests", out.get("tests"),
           {p: (c["rc"], len(c["violations"])) for p, c in out["checks"].items()}, flush=True)
 
